@@ -309,3 +309,25 @@ PLANS["C13"] = dict(
     assumptions=["zoom <= 30 so that coordinates fit TLC's 32-bit integers"],
     trusted_base=["TLC 2026.09.04", "CommunityModules Json/IOUtils", "harness rank/bit interning"],
 )
+
+# ---- C14 -------------------------------------------------------------------------------------------
+
+
+def run_c14(ctx):
+    ctx.mc("MergeUp", "MergeUp_%s.cfg" % ctx.tier, timeout=3000, heap="24g",
+           note="MergeUp loop with ANY map iteration order = MaxMerge; disjoint, same area, no complete quad left, never above min")
+    shards = ctx.gen("tilecover")
+    ctx.validate("TileCover_Trace", shards)
+    ctx.exhaustive = True
+    ctx.notes.append("exhaustive part: segments between points of a 13x13 sub-lattice of 3x3 tiles (every 5th pair quick, all thorough); MergeUp on all 65536 zoom-2 sets x 3 min zooms (thorough)")
+
+
+PLANS["C14"] = dict(
+    run=run_c14, signature=sig_default,
+    technique="TLA+ exact Must/May tile sets and sample-point polygon predicate in tile-space lattice units, MergeUp as a state machine with nondeterministic map order checked against MaxMerge; traces of the real tilecover functions validated by TLC",
+    level_text="TLC explores the MergeUp loop with every possible map iteration order for all 65536 zoom-2 tile sets x min in 0..2 (thorough; 384 structured sets quick) and checks result = MaxMerge, disjointness, equal area, no complete sibling quad left and no tile shallower than min. For real covers the harness places lattice paths and star-shaped polygons (with holes) in tile space at zooms 3..22, inverts them to lon/lat, checks with maptile.Fraction that the code sees the lattice point within 1e-6 tile, and records the cover; TLC requires Must <= cover <= May for lines (exact segment/rectangle tests with a 1/64-tile margin, so either choice at an exact corner crossing is accepted), sample-point and boundary tiles in the cover and the cover inside the bounding box for polygons, the tile itself for points, the union for collections, and MergeUp = MaxMerge on every repetition for tile sets at zoom 2 and 4.",
+    level_note="Zero-length lines are outside the quantifier and accepted with any cover. The inverse mercator is written out in the harness (orb/internal cannot be imported) and guarded by the Fraction round-trip check; cases that miss are dropped, never judged. MergeUpPartial is not specified by the property and not checked. Trusted: TLC, Json module, the inverse projection + Fraction guard.",
+    rule="one event = one real tilecover / MergeUp call; non-trivial = cover of more than one tile (lines, polygons) / all point, collection and merge events; distinct = distinct event text",
+    assumptions=["edges are straight in tile space (the code interpolates in tile fractions)", "lattice points are reproduced by maptile.Fraction within 1e-6 tile (checked per point)"],
+    trusted_base=["TLC 2026.09.04", "CommunityModules Json/IOUtils", "harness inverse mercator guarded by maptile.Fraction"],
+)
